@@ -671,6 +671,196 @@ def t04_cond(run, fx):
         run.anchor_missing(rule, "range test in ConditionTable::matches")
 
 
+# what a substitution that resizes the glyph vector returns, and what its caller owes the bookkeeping of the run:
+#   payload -> (advance of the position, change of the run length == change of the glyph count)
+RUN_SPECS = {
+    "gsub::multiplesubst": dict(
+        arity=1, advance=lambda n: n, change=lambda n: n - 1,
+        text="multiplesubst returns the number n of glyphs now standing where one glyph stood: the position moves past those n glyphs and the "
+             "run grows by n - 1 (shrinks by one when the sequence is empty)"),
+    "gsub::ligaturesubst": dict(
+        arity=2, advance=lambda p: p[1] + 1, change=lambda p: -p[0],
+        text="ligaturesubst returns (removed, skipped): the position moves past the ligature and the glyphs it skipped, the run shrinks by "
+             "the number of glyphs removed"),
+}
+
+
+def _loop_test(b, prov, header, body):
+    """(counter local, bound term) of `while counter < bound`: the first bool switch of the loop with an edge that leaves it"""
+    for bi in sorted(body):
+        t = b.term(bi)
+        if t["k"] != "switch" or t.get("dty") != "bool" or not b.dominates(header, bi):
+            continue
+        if all(x in body for x in b.succs(bi)):
+            continue
+        d = sym.strip(prov.op(t["discr"]))
+        if d[0] == "bin" and d[1] in ("Lt", "Gt"):
+            a, c = (d[2], d[3]) if d[1] == "Lt" else (d[3], d[2])
+            a = sym.strip(a)
+            if a[0] == "local":
+                return a[1], c
+        return None
+    return None
+
+
+def t04_run(run, fx, floors=True):
+    import guards
+    import loops
+    import pathwalk as pw
+    rule = "T04-RUN"
+    run.rule(rule, "run bookkeeping after a substitution that resizes the glyph vector (OpenType GSUB types 2 and 4: the lookup continues with "
+                   "the glyph after the output, over the whole remaining run): on every path from a call of multiplesubst / ligaturesubst back to "
+                   "the test of the enclosing `while position < bound` loop, the position advances by what the call reports (n; skipped + 1) and "
+                   "the bound changes by the change of the glyph count (n - 1; -removed), and by (1, 0) when nothing was substituted; a caller "
+                   "that reports the change to its own caller (apply_subst) returns exactly that change. The updates are piecewise linear in "
+                   "the payload; they are compared with the specification on 0..K+2, K the largest constant involved, which decides equality")
+    decided = 0
+    notes = []
+    for b in fx.bodies:
+        sites = [(bi, t) for bi, t in b.calls() if (t["callee"].get("path") or "") in RUN_SPECS and b.reachable(bi)]
+        if not sites:
+            continue
+        prov = sym.Prov(b)
+        nl = loops.natural_loops(b)
+        for bi, t in sites:
+            callee = t["callee"]["path"]
+            spec = RUN_SPECS[callee]
+            short = callee.split("::")[-1]
+            inner = None
+            for h, body, srcs in nl:
+                if bi in body and (inner is None or len(body) < len(inner[1])):
+                    inner = (h, body)
+            test = _loop_test(b, prov, inner[0], inner[1]) if inner else None
+            key = "run|%s|%s" % (b.path, short)
+            site = b.loc(t)
+            if test is not None:
+                ctr, bound = test
+                cname = b.local_name(ctr) or "_%d" % ctr
+                w = pw.Walk(b, bi, [inner[0]], region=inner[1])
+                paths = [p for p in w.paths if p[3] == "stop"]
+                bterm = guards.rewrite(sym.strip(bound), lambda x: ("init", b.local_name(x[1]) or "_%d" % x[1]) if x[0] in ("local", "arg") else None)
+                names = sorted({x[1] for x in sym.walk(bterm) if x[0] == "init"} | {cname})
+                if w.dropped or not paths or any(n in w.borrowed for n in names):
+                    notes.append("%s in %s: not decided (%s)" % (short, b.path, "; ".join(w.dropped) or "counter borrowed or no path back to the test"))
+                    continue
+                res = _decide_loop(pw, spec, paths, cname, bterm, names)
+            elif re.match(r"^std::result::Result<std::option::Option<isize>, ", b.local_ty(0) or ""):
+                w = pw.Walk(b, bi, [])
+                paths = [p for p in w.paths if p[3] == "return"]
+                if w.dropped or not paths:
+                    notes.append("%s in %s: not decided (%s)" % (short, b.path, "; ".join(w.dropped) or "no path to the return"))
+                    continue
+                res = _decide_return(pw, spec, paths)
+            else:
+                notes.append("%s in %s: neither inside a `while position < bound` loop nor reporting an isize change" % (short, b.path))
+                continue
+            if res[0] == "bad":
+                run.fail(rule, key, "%s: after %s %s - %s" % (b.path, short, res[1], spec["text"]), site)
+                decided += 1
+            elif res[0] == "ok":
+                run.ok(rule, "%s in %s: %s" % (short, b.path, res[1]))
+                decided += 1
+            else:
+                notes.append("%s in %s: not decided (%s)" % (short, b.path, res[1]))
+    for n in notes:
+        run.notes.append("%s: %s" % (rule, n))
+    if floors:
+        run.floor(rule, "callers of multiplesubst / ligaturesubst whose bookkeeping was decided", decided, 4)
+
+
+def _payloads(pw, spec, paths, extra_terms=()):
+    terms = [v for conds, env, _, _ in paths for v in env.values()] + [c[0] for conds, _, _, _ in paths for c in conds] + list(extra_terms)
+    ns = pw.samples(terms)
+    if spec["arity"] == 1:
+        return [None] + ns
+    return [None] + [(x, y) for x in ns for y in ns]
+
+
+def _feasible(pw, ev, paths):
+    """the paths whose recorded conditions hold under the assignment; None when a condition cannot be evaluated"""
+    out = []
+    for p in paths:
+        try:
+            if all(ev.holds(c) for c in p[0]):
+                out.append(p)
+        except pw.Infeasible:
+            continue
+        except pw.Undecided:
+            return None
+    return out
+
+
+def _decide_loop(pw, spec, paths, cname, bterm, names):
+    base = {n: 5000 + 1000 * i for i, n in enumerate(names)}
+    base[cname] = 1000
+    checked = 0
+    for pl in _payloads(pw, spec, paths, [bterm]):
+        a = dict(base)
+        a["payload"] = pl
+        ev = pw.Eval(a)
+        fs = _feasible(pw, ev, paths)
+        if fs is None:
+            continue
+        for conds, env, _, _ in fs:
+            try:
+                b0 = pw.Eval(a).ev(bterm)
+                a1 = dict(a)
+                # the bound after the iteration: the same expression over the final values
+                fin = {}
+                for n in names:
+                    fin[n] = ev.ev(env[n]) if n in env else a[n]
+                    if isinstance(fin[n], tuple):
+                        raise pw.Undecided("final value of %s" % n)
+                a1.update(fin)
+                b1 = pw.Eval(a1).ev(bterm)
+            except pw.Infeasible:
+                continue
+            except pw.Undecided as e:
+                return ("undecided", str(e))
+            di, db = fin[cname] - a[cname], b1 - b0
+            want = (1, 0) if pl is None else (spec["advance"](pl), spec["change"](pl))
+            checked += 1
+            if (di, db) != want:
+                what = "nothing was substituted" if pl is None else "it returned %s" % (pl,)
+                return ("bad", "when %s the position `%s` moves by %d and the bound of the run by %d, the specification is %d and %d"
+                        % (what, cname, di, db, want[0], want[1]))
+    if not checked:
+        return ("undecided", "no payload for which the path conditions could be evaluated")
+    return ("ok", "position and bound agree with the payload on %d sample paths" % checked)
+
+
+def _decide_return(pw, spec, paths):
+    checked = 0
+    for pl in _payloads(pw, spec, paths):
+        if pl is None:
+            continue
+        a = {"payload": pl}
+        ev = pw.Eval(a)
+        fs = _feasible(pw, ev, paths)
+        if fs is None:
+            continue
+        for conds, env, _, _ in fs:
+            r = env.get("_0")
+            if r is None or r[0] != "agg" or r[2] != "Ok" or len(r[3]) != 1:
+                return ("undecided", "shape of the returned value")
+            o = r[3][0]
+            if o[0] != "agg" or o[2] != "Some" or len(o[3]) != 1:
+                return ("undecided", "shape of the returned value")
+            try:
+                got = ev.ev(o[3][0])
+            except pw.Infeasible:
+                continue
+            except pw.Undecided as e:
+                return ("undecided", str(e))
+            checked += 1
+            if got != spec["change"](pl):
+                return ("bad", "when it returned %s the change of the glyph count reported to the caller is %s, the specification is %d"
+                        % (pl, got, spec["change"](pl)))
+    if not checked:
+        return ("undecided", "no payload for which the path conditions could be evaluated")
+    return ("ok", "the reported change agrees with the payload on %d sample paths" % checked)
+
+
 def check(run, fx, tier, floors=True):
     if floors or fx.body("layout::ConditionTable::matches") is not None:
         t04_cond(run, fx)
@@ -684,6 +874,8 @@ def check(run, fx, tier, floors=True):
     t04_rvrn(run, fx)
     t04_disp(run, fx)
     t04_skip(run, fx)
+    if floors or any((t['callee'].get('path') or '') in RUN_SPECS for b in fx.bodies for _, t in b.calls()):
+        t04_run(run, fx, floors)
     if floors or fx.adt("context::IgnoreMarks") is not None:
         t04_marks(run, fx)
     if floors or fx.const("gsub::FEATURE_MASKS") is not None:
